@@ -1118,10 +1118,12 @@ func (v *VMValue) AttrGet(ctx *Context, name string) *VMValue {
 			var ok bool
 			p1 := v
 			p1x := a
+			visited := map[*VMValue]bool{v: true} // 原型链可能成环
 
 			for {
-				if p1, ok = p1x.Load("__proto__"); ok && p1.TypeId == VMTypeDict {
+				if p1, ok = p1x.Load("__proto__"); ok && p1.TypeId == VMTypeDict && !visited[p1] {
 					var exists bool
+					visited[p1] = true
 					p1x = (*VMDictValue)(p1)
 					ret, exists = p1x.Load(name)
 
